@@ -48,7 +48,31 @@ def user_fns(defined):
     from ndn.app_support.light_versec import DEFAULT_USER_FNS
     fns = dict(DEFAULT_USER_FNS)
     fns['$odd'] = lambda c, args: (bytes(c)[-1] + sum((bytes(a)[-1] if a is not None else 1) for a in args)) % 2 == 1
+    # `$first` depends on the ORDER of its arguments (the other three do not); the Lean model does not know it, so schemas
+    # using it are judged by the oracle only
+    fns['$first'] = lambda c, args: len(args) > 0 and args[0] is not None and bytes(args[0]) == bytes(c)
     return {k: v for k, v in fns.items() if k in defined}
+
+
+def asym_variant(rng, schema):
+    """a copy of a well-formed schema in which some constraint terms get an extra option calling `$first` with a pattern and a
+    literal argument in either order (well-formed again: the patterns are named ones written in some name)"""
+    import copy
+    s = copy.deepcopy(schema)
+    pats = sorted({c[1] for r in s['rules'] for c in r['name'] if c[0] == 'pat' and not is_temp(c[1])})
+    lits = [x for x in alphabet(s) if x not in ('zz', 'v=9')] or ['a']
+    terms = [t for r in s['rules'] for cs in r['cons'] for t in cs]
+    if not terms or not pats:
+        return None
+    for t in rng.sample(terms, min(len(terms), rng.choice([1, 2, 3]))):
+        args = [['pat', rng.choice(pats)], ['lit', rng.choice(lits)]]
+        if rng.random() < 0.5:
+            args.reverse()
+        if rng.random() < 0.5:
+            t['opts'] = [['fn', '$first', args]]
+        else:
+            t['opts'].append(['fn', '$first', args])
+    return s
 
 
 # -------------------------------------------------------------------------------------- pretty printer
@@ -662,8 +686,102 @@ def gen_schema(rng, signing=True, size=None):
             rules.append({'id': '#t2', 'name': outer, 'cons': [], 'sign': []})
             if rng.random() < 0.3 and len(body) * 2 + len(outer) - 1 <= MAXLEN:
                 rules.append({'id': '#t3', 'name': [['ref', '#t2'], ['lit', rng.choice(lits)]], 'cons': [], 'sign': []})
+    extra_motifs(rng, rules, lits, named, signing)
     rng.shuffle(rules)
     return {'rules': rules}
+
+
+def extra_motifs(rng, rules, lits, named, signing):
+    """hardening motifs (each rare; appended before the shuffle, so which definition comes first in the text is random):
+    shapes the random rules above seldom or never produce"""
+    def lit():
+        return ['lit', rng.choice(lits)]
+
+    def lit_opts():
+        return [lit() for _ in range(rng.choice([1, 1, 2]))]
+    outside = [r['id'] for r in rules if not is_temp(r['id'])]      # rules that never refer to / are signed by a motif rule
+
+    def signers():
+        return sorted(set(rng.sample(outside, min(len(outside), rng.choice([1, 1, 2]))))) if signing and outside else []
+    # (R) a rule defined two or three times whose LATER definitions carry the temporaries, constraints, references
+    #     and signers, referred to two or three times from one name
+    if rng.random() < 0.2:
+        t1, t2 = rng.choice(TEMPS + named[:1]), rng.choice(TEMPS)
+        d1 = {'id': '#r1', 'name': [['pat', t1]], 'cons': [[{'pat': t1, 'opts': lit_opts()}]] if rng.random() < 0.5 else [], 'sign': []}
+        n2 = [['pat', t2]] if rng.random() < 0.4 else ([lit(), ['pat', t2]] if rng.random() < 0.7 else [['pat', t2], lit()])
+        c2 = [[{'pat': t2, 'opts': lit_opts()}]]
+        if rng.random() < 0.3:
+            c2.append([{'pat': t2, 'opts': [gen_opt(rng, [], lits)]}])
+        d2 = {'id': '#r1', 'name': n2, 'cons': c2, 'sign': signers() if rng.random() < 0.6 else []}
+        defs = [d1, d2]
+        if rng.random() < 0.3:
+            rules.append({'id': '#r0', 'name': [['pat', rng.choice(TEMPS + named[:1])]], 'cons': [], 'sign': []})
+            rules[-1]['cons'] = [[{'pat': rules[-1]['name'][0][1], 'opts': lit_opts()}]]
+            defs.append({'id': '#r1', 'name': [['ref', '#r0']] + ([lit()] if len(n2) == 1 else []), 'cons': [], 'sign': signers()})
+        longest = max(len(d['name']) for d in defs)
+        k = 3 if longest == 1 and rng.random() < 0.5 else 2
+        outer = [['ref', '#r1'] for _ in range(k)]
+        if longest * k < MAXLEN and rng.random() < 0.4:
+            outer.insert(rng.randrange(k + 1), lit() if rng.random() < 0.6 else ['pat', rng.choice(named)])
+        rules.extend(defs)
+        rules.append({'id': '#r2', 'name': outer, 'cons': [], 'sign': signers() if rng.random() < 0.3 else []})
+    # (U) one rule referred to three times / references nested two deep, a constraint added at every level
+    #     (on the inherited named pattern too), options mixing literals, patterns and user-function calls
+    if rng.random() < 0.2:
+        x = rng.choice(named)
+        y = rng.choice([p for p in NAMED if p != x])
+        p1 = rng.choice([x, x, rng.choice(TEMPS)])
+        rules.append({'id': '#u1', 'name': [['pat', p1]], 'sign': [],
+                      'cons': [[{'pat': p1, 'opts': [gen_opt(rng, [], lits) for _ in range(rng.choice([1, 2]))]}]]})
+        c2 = [[{'pat': y, 'opts': [gen_opt(rng, [x] if p1 == x else [], lits) for _ in range(rng.choice([1, 2]))]}]]
+        if p1 == x and rng.random() < 0.5:
+            c2[0].append({'pat': x, 'opts': lit_opts() + [['fn', '$eq', [lit(), ['pat', y]]]]})     # y is bound later: that option never holds
+        rules.append({'id': '#u2', 'name': [['ref', '#u1'], ['pat', y]], 'cons': c2, 'sign': []})
+        shape = rng.choice(['triple', 'nested', 'both'])
+        if shape == 'triple':
+            n3 = [['ref', '#u1'], ['ref', '#u1'], ['ref', '#u1']]
+        elif shape == 'nested':
+            n3 = [lit(), ['ref', '#u2']]
+        else:
+            n3 = [['ref', '#u2'], ['ref', '#u1'], ['ref', '#u2']]
+        c3 = []
+        if shape != 'triple' and rng.random() < 0.6:
+            c3 = [[{'pat': y, 'opts': [rng.choice([['pat', x], ['fn', '$eq', [['pat', x], lit()]], ['fn', '$eq_type', [lit()]], lit()])]}]]
+            if rng.random() < 0.3:
+                c3.append([{'pat': y, 'opts': lit_opts()}])
+        rules.append({'id': '#u3', 'name': n3, 'cons': c3, 'sign': signers() if rng.random() < 0.3 else []})
+    # (C) a signing chain of length three, the shared pattern constrained at every level
+    if signing and rng.random() < 0.2:
+        x = rng.choice(named)
+        y = rng.choice([p for p in NAMED if p != x])
+
+        def xcons():
+            return [[{'pat': x, 'opts': [gen_opt(rng, [x, y], lits) for _ in range(rng.choice([1, 2]))]}]]
+        rules.append({'id': '#c3', 'name': [lit(), ['pat', x]], 'cons': xcons(), 'sign': []})
+        rules.append({'id': '#c2', 'name': [lit(), ['pat', x], ['pat', rng.choice(TEMPS + [y])]], 'cons': xcons(), 'sign': ['#c3']})
+        n1 = [lit(), ['pat', x]]
+        if rng.random() < 0.5:
+            n1.insert(rng.randrange(1, 3), ['pat', y])
+        rules.append({'id': '#c1', 'name': n1, 'cons': xcons() if rng.random() < 0.7 else [],
+                      'sign': ['#c2'] + (['#c3'] if rng.random() < 0.3 else [])})
+    # (D) one temporary rule identifier defined twice: two independent rules
+    if rng.random() < 0.1:
+        for _ in range(2):
+            nm = [rng.choice([lit(), ['pat', rng.choice(named)], ['pat', rng.choice(TEMPS)]]) for _ in range(rng.choice([1, 2]))]
+            rules.append({'id': '#_d', 'name': nm, 'cons': [], 'sign': signers() if rng.random() < 0.5 else []})
+    # keep the schema well-formed: a named pattern used as option / argument must be written in some name
+    everywhere = {c[1] for r in rules for c in r['name'] if c[0] == 'pat' and not is_temp(c[1])}
+    for r in rules:
+        for cs in r['cons']:
+            for t in cs:
+                for o in t['opts']:
+                    for a in ([o] if o[0] == 'pat' else o[2] if o[0] == 'fn' else []):
+                        if a[0] == 'pat' and a[1] not in everywhere:
+                            a[0], a[1] = 'lit', rng.choice(lits)
+
+
+PARAMS_DIGEST_S = 'params-sha256=' + '00' * 32       # a ParametersSha256DigestComponent (type 2): never ignored
+DIGEST_S = 'sha256digest=' + '5a' * 32                # an implicit digest written as an ordinary component of a name
 
 
 def alphabet(schema):
@@ -723,6 +841,18 @@ def gen_names(rng, schema, spec, count, maxlen=MAXLEN):
             names.append(nm)
         else:
             names.append([rng.choice(alpha) for _ in range(rng.randint(1, maxlen))])
+        if rng.random() < 0.07:
+            # digest-typed components: a parameters digest is never ignored, an implicit digest only as the LAST component
+            nm = list(names[-1])
+            d = rng.choice([PARAMS_DIGEST_S, PARAMS_DIGEST_S, DIGEST_S])
+            r = rng.random()
+            if r < 0.6:
+                nm.append(d)
+            elif r < 0.8:
+                nm[-1] = d
+            else:
+                nm.insert(rng.randrange(len(nm)), d)
+            names.append(nm)
     uniq = []
     for n in names:
         if n not in uniq:
@@ -799,7 +929,11 @@ def gen_sign_names(rng, schema, spec, count):
 
 
 def name_bytes(nm, digest=False):
-    return [comp(s) for s in nm] + ([DIGEST] if digest else [])
+    """digest: False | True (a trailing implicit digest) | 'params' (a trailing parameters digest) | 'both' (parameters
+    digest, then implicit digest: the full name of a signed Interest)"""
+    tail = {'params': [comp(PARAMS_DIGEST_S)], 'both': [comp(PARAMS_DIGEST_S), DIGEST],
+            'double': [DIGEST, DIGEST]}.get(digest, [DIGEST] if digest else [])      # 'double': only the last one is ignored
+    return [comp(s) for s in nm] + tail
 
 
 def shrink_schema(schema):
